@@ -137,7 +137,7 @@ Definition check_load (c : fmt * list zline * option zraw * option (option strin
   let r := parse_fmt f ls in
   oraw_eqb r obs &&
   match cls, r with
-  | Some k, Some x => ostr_eqb (class_of_raw x) k
+  | Some k, Some x => ostr_eqb (class_of_loaded x) k
   | _, _ => true
   end.
 
